@@ -94,6 +94,8 @@ class P:
             return "(sx %s)" % self.hx(s["sha"])
         if "pw" in s:
             return "(px %s)" % self.hx(s["pw"])
+        if "cat" in s:
+            return "(%s)" % " ++ ".join(self.sym(x) for x in s["cat"])
         if "join" in s:
             return '(bjoin ","%%byte [%s])' % "; ".join(self.sym(x) for x in s["join"])
         return "[]"
@@ -160,7 +162,7 @@ class P:
                                    for m in o.get("mails") or [])
         smss = "[%s]" % "; ".join("(mkSms %s %s)" % (self.hx(s["to"]), self.hx(s["text"])) for s in o.get("sms") or [])
         calls = "[%s]" % "; ".join(CALLS[c] for c in o.get("calls") or [])
-        logs = "[%s]" % "; ".join(self.hx(l) for l in o.get("logs") or [])
+        logs = "[%s]" % "; ".join(self.sym(l) for l in o.get("logs") or [])
         return "(mkIobs %s %s %s %s %s %s %s %s %s %s %s %s %s %s)" % (
             z(r.get("status", 0)), self.txt(canon_loc(r.get("location", ""))), self.txt(r.get("page", "")), data,
             b(bool(r.get("panic"))), b(o.get("err", False)), self.amap_hex(o.get("sess") or {}),
